@@ -36,10 +36,11 @@ def pixel2world_single_axis(wcs, *pixel, world_axis=None):
     if world_axis is None:
         raise ValueError("world_axis needs to be set")
 
-    if np.size(pixel[0]) == 0:
-        return np.array([], dtype=float)
-
     original_shape = pixel[0].shape
+
+    if np.size(pixel[0]) == 0:
+        return np.zeros(original_shape, dtype=float)
+
     pixel_new = []
 
     # Now find all the pixel coordinates that are needed to calculate this
@@ -93,10 +94,11 @@ def world2pixel_single_axis(wcs, *world, pixel_axis=None):
     if pixel_axis is None:
         raise ValueError("pixel_axis needs to be set")
 
-    if np.size(world[0]) == 0:
-        return np.array([], dtype=float)
-
     original_shape = world[0].shape
+
+    if np.size(world[0]) == 0:
+        return np.zeros(original_shape, dtype=float)
+
     world_new = []
 
     # Now find all the world coordinates that are needed to calculate this
